@@ -611,6 +611,33 @@ func (e *SpecEnv) callSpec(n SCall) (SVal, error) {
 			return SVal{}, fmt.Errorf("fresh of %T", v.V)
 		}
 		return SVal{V: Scalar{And(Ge(base, e.old.alloc), Lt(base, e.st.alloc))}}, nil
+	case "evcount": // evcount("name"): number of ghost events so far
+		tn, _ := n.Args[0].(SStrLit)
+		key := "ev|" + tn.V + "|n"
+		if t, ok := e.st.ghost[key]; ok {
+			return SVal{V: Scalar{t}}, nil
+		}
+		return SVal{V: Scalar{u.ghostInit(key)}}, nil
+	case "evarg": // evarg("name", k, i): k-th argument of the i-th event
+		tn, _ := n.Args[0].(SStrLit)
+		kl, ok := n.Args[1].(SIntLit)
+		if !ok {
+			return SVal{}, fmt.Errorf("evarg needs a literal argument position")
+		}
+		it, err := e.evalTerm(n.Args[2])
+		if err != nil {
+			return SVal{}, err
+		}
+		key := fmt.Sprintf("ev|%s|%d", tn.V, kl.V.Int64())
+		arr, ok := e.st.ghost[key]
+		if !ok {
+			sorts, declared := u.eng.specs.EvDecl[tn.V]
+			if !declared || int(kl.V.Int64()) >= len(sorts) {
+				return SVal{}, fmt.Errorf("event %s argument %d is not declared (evdecl)", tn.V, kl.V.Int64())
+			}
+			arr = u.ghostArrInit(key, ArrSort(SInt, sorts[kl.V.Int64()]))
+		}
+		return SVal{V: Scalar{Select(arr, it)}}, nil
 	case "ghost": // ghost("name"): current value of a ghost counter/trace
 		tn, _ := n.Args[0].(SStrLit)
 		if t, ok := e.st.ghost[tn.V]; ok {
@@ -714,6 +741,16 @@ func (u *Unit) unboxNoAssume(pay Term, t types.Type) Value {
 	}
 	v, _ := u.m.unflatten(t, terms)
 	return v
+}
+
+func (u *Unit) ghostArrInit(name string, sort Sort) Term {
+	key := "ghost0|" + name
+	if t, ok := u.m.heap0[key]; ok {
+		return t
+	}
+	t := u.c.Fresh("ghost_"+name, sort)
+	u.m.heap0[key] = t
+	return t
 }
 
 func (u *Unit) ghostInit(name string) Term {
